@@ -35,7 +35,7 @@ Fresh1 == CHOOSE u \in 1..(MaxCst + 6) : u \notin Ids /\ \A v \in 1..(MaxCst + 6
 \* "late" (D1 := X2 is defined before the base set X2 exists; base sets are inserted and erased during the history)
 TermDefs == CASE Preset = "struct" -> {2, 3, 9, 14} [] Preset = "late" -> {3, 15, 16} [] OTHER -> {2, 3, 4, 5, 6, 7, 8, 13}
 EditDefs == CASE Preset = "struct" -> {2, 9, 14} [] Preset = "late" -> {2, 15, 16} [] OTHER -> {2, 3, 4, 5, 6, 8, 13}
-KeySets == IF Preset = "struct" THEN {{1}, {1, 3}, {2, 3}} ELSE SUBSET {1, 2, 3}
+KeySets == IF Preset \in {"struct", "late"} THEN {{1}, {1, 3}, {2, 3}} ELSE SUBSET {1, 2, 3}
 \* data offered to the structure S1 : B(X1*X1)
 DataPool == {{}, {<<1, 1>>, <<1, 2>>}, {<<2, 1>>}, {<<1, 3>>, <<3, 3>>}}
 
